@@ -172,7 +172,10 @@ def oracle(suite, ent, case, cls, out, replay):
     released = payload_is_target and direct.get('payload') == plain_hex and len(ent['payload']) > 0 and single_target(case['alt'])
     if klass == 'must_fail':
         if delivered:
-            if base.eid_only(ent['wire'], case['alt'], SEC_TYPE) or (ent.get('extra') and base.eid_only(ent['wire'], case['alt'], sd.BIB)):
+            if allres == [] and direct.get('error') is None:
+                suite.fail(SIG_IGNORED, 'BCB altered (%s: %s) -> not recognised as a security block; bundle delivered, data = %s' % (
+                    case['label'], detail, 'ciphertext' if out['payload'] != plain_hex else 'PLAINTEXT'), replay)
+            elif base.eid_only(ent['wire'], case['alt'], SEC_TYPE) or (ent.get('extra') and base.eid_only(ent['wire'], case['alt'], sd.BIB)):
                 suite.fail(SIG_EID, 'authenticated EID altered (%s: %s) yet verify_bcb returned %r and the bundle was delivered to %s with the plaintext' % (
                     case['label'], detail, res, out.get('dest')), replay)
             else:
